@@ -152,6 +152,14 @@ fn execute(exe: &str, dir: &str, id: u64, text: &str, route: &Route, opts: &[Str
     let inpath = format!("{dir}/in{id}{}", route.ext);
     let outpath = format!("{dir}/out{id}.json");
     let _ = std::fs::remove_file(&outpath);
+    // every other run to a file finds an older, longer result at the destination: the new result must replace it
+    let prefill = if route.to_file && id % 2 == 0 {
+        let old = format!("{{\"regret\":0.5,\"player_one_utility\":0.0,\"player_two_utility\":0.0,\"old\":\"{}\"}}\n", "x".repeat(65536));
+        std::fs::write(&outpath, &old).unwrap();
+        Some(old)
+    } else {
+        None
+    };
     let stdin = if route.src == "stdin" {
         Some(text)
     } else {
@@ -165,8 +173,12 @@ fn execute(exe: &str, dir: &str, id: u64, text: &str, route: &Route, opts: &[Str
         args.push(outpath.clone());
     }
     let run = cli::run_cli(exe, &args, stdin, Duration::from_secs(60));
-    let outfile = std::path::Path::new(&outpath).exists();
     let raw = if route.to_file { std::fs::read_to_string(&outpath).unwrap_or_default() } else { run.stdout.clone() };
+    // "something was written to the destination": a file appeared, or the older result was replaced by other content
+    let outfile = match &prefill {
+        None => std::path::Path::new(&outpath).exists(),
+        Some(old) => !raw.is_empty() && raw != *old,
+    };
     let printed: Value = serde_json::from_str(raw.trim()).unwrap_or(Value::Null);
     let _ = std::fs::remove_file(&inpath);
     let _ = std::fs::remove_file(&outpath);
